@@ -22,6 +22,7 @@ type Project struct {
 	Name    string
 	Vec     string
 	Types   map[string]reflect.Type
+	Foreign map[string]any
 	New     func() (any, any, any, func() graphql.ExecutableSchema)
 	Options map[string]string
 }
@@ -84,6 +85,10 @@ func (p *Project) Build() (*Server, error) {
 	stub, dirs, cplx, mk := p.New()
 	schema := mk().Schema()
 	u := univ.New(p.Name+"/"+p.Vec, schema, p.Types)
+	u.Foreign = map[string]reflect.Value{}
+	for k, v := range p.Foreign {
+		u.Foreign[k] = reflect.ValueOf(v)
+	}
 	if err := u.FillStub(stub, templates.ToGo); err != nil {
 		return nil, err
 	}
